@@ -101,6 +101,24 @@ CHECKS = {
              "oracle is deliberately sound rather than complete; attribute rows the documentation leaves open are "
              "not judged. Known findings in KNOWN_FINDINGS.txt.",
     ),
+    "C08": dict(
+        level="model_checking",
+        design="DESIGN.md section 4 / C08",
+        technique="TLA+ spec Naming (expansion machine Defaults/Number/Templates/Generics, callable signatures, "
+                  "un_camel on code points) model-checked with TLC; name tables read back from files generated by "
+                  "real Shroud runs validated against Trace_Naming by TLC",
+        text="TLC exhausts every admitted scope of <= 2 (thorough 3) declared functions over two C++ names x 5 "
+             "parameter lists x 0..2 trailing defaults x explicit/defaulted function_suffix x default_arg_suffix x "
+             "template instantiations x fortran_generic variants: exactly one C entry and one Fortran specific per "
+             "callable signature, no two names coincide. Conformance: the same scopes (all singles, sampled pairs "
+             "and triples, CamelCase names, library and namespace scope, varying default values) are run through "
+             "the real generator with all four wrappers on; C definitions (with their debug 'Function:' comments), "
+             "bind(C) interfaces, Fortran specifics and the C function each calls, generic interfaces, PyMethodDef "
+             "and luaL_Reg tables are parsed from the generated files and TLC decides completeness, uniqueness, "
+             "generic-interface exactness and the prefix + scope + underscore-name shape of every name.",
+        note="Trusted: TLC, the regular-expression readers of generated C/Fortran, PyYAML. Class scope and "
+             "bufferify variants are not in the enumerated domain yet (numeric parameter types only).",
+    ),
 }
 
 ALL = ["C%02d" % i for i in range(1, 19)]
